@@ -68,6 +68,30 @@ func c10Intervening(t *rapid.T, tmplIdx int, w string, wType model.Type) []strin
 	return tm.mk(t, keys)
 }
 
+// c10Restoring: command sequences after which the watched key holds exactly what it held before - moved away
+// and back, copied aside, deleted and restored, grown and shrunk again. Every one of them modifies the key.
+func c10Restoring(t *rapid.T, w string, wType model.Type) [][]string {
+	any := [][][]string{
+		{{"RENAME", w, "tmpk"}, {"RENAME", "tmpk", w}},
+		{{"COPY", w, "bak"}, {"DEL", w}, {"RENAME", "bak", w}},
+		{{"RENAME", w, "tmpk"}, {"COPY", "tmpk", w}, {"DEL", "tmpk"}},
+		{{"COPY", w, "bak"}, {"UNLINK", w}, {"COPY", "bak", w}},
+		{{"PEXPIREAT", w, "4102444800000"}, {"PERSIST", w}},
+		{{"RENAME", w, "tmpk"}, {"RENAME", "tmpk", "tmpk2"}, {"RENAME", "tmpk2", w}},
+	}
+	switch wType {
+	case model.TString:
+		any = append(any, [][]string{{"INCR", w}, {"DECR", w}}, [][]string{{"SETBIT", w, "7", "1"}, {"SETBIT", w, "7", "0"}})
+	case model.TList:
+		any = append(any, [][]string{{"RPUSH", w, "extra"}, {"RPOP", w}}, [][]string{{"LPUSH", w, "extra"}, {"LPOP", w}}, [][]string{{"LMOVE", w, "tmpl", "RIGHT", "LEFT"}, {"LMOVE", "tmpl", w, "LEFT", "RIGHT"}})
+	case model.THash:
+		any = append(any, [][]string{{"HSET", w, "extra", "1"}, {"HDEL", w, "extra"}}, [][]string{{"HINCRBY", w, "cnt", "1"}, {"HDEL", w, "cnt"}})
+	case model.TSet:
+		any = append(any, [][]string{{"SADD", w, "extra"}, {"SREM", w, "extra"}}, [][]string{{"SADD", w, "extra"}, {"SMOVE", w, "tmps", "extra"}})
+	}
+	return any[rapid.IntRange(0, len(any)-1).Draw(t, "restoring")]
+}
+
 func c10GenCell(t *rapid.T, cellNo int, base int, add func(conn int, a ...string)) {
 	// fresh state
 	add(0, "FLUSHALL")
@@ -93,16 +117,23 @@ func c10GenCell(t *rapid.T, cellNo int, base int, add func(conn int, a ...string
 	}
 	issuer := rapid.IntRange(0, 1).Draw(t, "issuer") // 0 = T itself, 1 = O
 	position := rapid.IntRange(0, 2).Draw(t, "position")
-	cmd := c10Intervening(t, tmplIdx, w, wType)
+	cmds := [][]string{c10Intervening(t, tmplIdx, w, wType)}
+	if wType != model.TNone && rapid.IntRange(0, 3).Draw(t, "restoring-seq") == 0 {
+		cmds = c10Restoring(t, w, wType)
+	}
 	if position == 2 {
 		issuer = 1 // a command of T after MULTI would be queued, not executed
 	}
 	if position == 0 {
-		add(issuer, cmd...)
+		for _, cmd := range cmds {
+			add(issuer, cmd...)
+		}
 	}
 	add(0, append([]string{"WATCH"}, watched...)...)
 	if position == 1 {
-		add(issuer, cmd...)
+		for _, cmd := range cmds {
+			add(issuer, cmd...)
+		}
 	}
 	switch rapid.IntRange(0, 9).Draw(t, "between") {
 	case 0:
@@ -122,7 +153,9 @@ func c10GenCell(t *rapid.T, cellNo int, base int, add func(conn int, a ...string
 	}
 	add(0, "MULTI")
 	if position == 2 {
-		add(issuer, cmd...)
+		for _, cmd := range cmds {
+			add(issuer, cmd...)
+		}
 	}
 	add(0, "SET", "marker", "1")
 	add(0, "EXEC")
